@@ -437,6 +437,18 @@ func sources(v ssa.Value) []ssa.Value {
 				}
 				return
 			}
+		case *ssa.Parameter:
+			// the parameter of an immediately-invoked function literal is its argument
+			if g := x.Parent(); g != nil {
+				if site := iifeSiteCached(g); site != nil {
+					for i, p := range g.Params {
+						if p == x && i < len(site.Call.Args) {
+							walk(site.Call.Args[i])
+							return
+						}
+					}
+				}
+			}
 		case *ssa.Extract:
 			if call, ok := x.Tuple.(*ssa.Call); ok {
 				if g := iifeCallee(call); g != nil {
@@ -490,6 +502,24 @@ func sources(v ssa.Value) []ssa.Value {
 	}
 	walk(v)
 	return out
+}
+
+// carriesOnly: every origin of v (through phis, conversions and spilled local cells, e.g. a
+// parameter that a function literal captures) is p.
+func carriesOnly(v ssa.Value, p ssa.Value) bool {
+	if v == p {
+		return true
+	}
+	src := sources(v)
+	if len(src) == 0 {
+		return false
+	}
+	for _, s := range src {
+		if s != p {
+			return false
+		}
+	}
+	return true
 }
 
 func hasForeign(stores []*ssa.Store, fn *ssa.Function) bool {
@@ -727,6 +757,10 @@ func instrDominates(a, b ssa.Instruction) bool {
 	if a.Parent() != b.Parent() {
 		if lb, ok := liftInstr(b, a.Parent()); ok {
 			b = lb
+		} else if la, ok := liftMust(a, b.Parent()); ok {
+			// a sits in a function literal invoked on the way to b and is executed on every
+			// normal return of that literal
+			a = la
 		} else {
 			return false
 		}
@@ -735,6 +769,28 @@ func instrDominates(a, b ssa.Instruction) bool {
 		return instrIndex(a) < instrIndex(b)
 	}
 	return a.Block().Dominates(b.Block())
+}
+
+// liftMust maps an instruction inside (nested) IIFEs of fn to the call in fn that executes it,
+// provided the instruction is executed on every path to a normal return of each literal.
+func liftMust(in ssa.Instruction, fn *ssa.Function) (ssa.Instruction, bool) {
+	for i := 0; i < 8; i++ {
+		g := in.Parent()
+		if g == fn {
+			return in, true
+		}
+		site := iifeSiteCached(g)
+		if site == nil {
+			return nil, false
+		}
+		for _, ret := range returnsOf(g) {
+			if !(in.Block() == ret.Block() || in.Block().Dominates(ret.Block())) {
+				return nil, false
+			}
+		}
+		in = site
+	}
+	return nil, false
 }
 
 // Search walks forward from a program point. visit is called on every
